@@ -66,7 +66,7 @@ Proof. intros o [[o' m'] [why|]]; cbn [finish]; do 3 eexists; (split; [reflexivi
 Lemma step_plain_has : forall c F w x j, plain x = true -> has (fst (step c F w x)) j = has w j.
 Proof.
   intros c F w x j P. unfold step. destruct (crashed w); [reflexivity|].
-  destruct x as [k|k f|k f|k s|k inv e|k dim nk|k p|k i|k i|i k|k fails|k|k]; try discriminate P;
+  destruct x as [k|k f|k f|k s|k inv e|k dim nk|k p|k i|k i|i k|k fails|k|k|k key]; try discriminate P;
     cbv beta iota zeta; cbn [target];
     (destruct (get_obj w k) as [o|] eqn:E; [|reflexivity]);
     (destruct (negb (safe c o None _)); [reflexivity|]).
@@ -85,7 +85,7 @@ Lemma step_plain_not_skipped : forall c F w x, plain x = true -> is_eval x = fal
   has w (target x) = true -> snd (step c F w x) <> Skipped.
 Proof.
   intros c F w x P NE NC H. unfold step. rewrite NC. unfold has in H.
-  destruct x as [k|k f|k f|k s|k inv e|k dim nk|k p|k i|k i|i k|k fails|k|k]; try discriminate P; try discriminate NE;
+  destruct x as [k|k f|k f|k s|k inv e|k dim nk|k p|k i|k i|i k|k fails|k|k|k key]; try discriminate P; try discriminate NE;
     cbv beta iota zeta; cbn [target] in *;
     (destruct (get_obj w k) as [o|] eqn:E; [|discriminate H]);
     (destruct (negb (safe c o None _)); [cbn; discriminate|]).
@@ -130,7 +130,7 @@ Definition is_move (x : op) : bool := match x with OMoveCtor _ _ | OMoveAssign _
 Lemma step_get_other : forall c F w x j, is_move x = false -> j <> target x -> get_obj (fst (step c F w x)) j = get_obj w j.
 Proof.
   intros c F w x j M N. unfold step. destruct (crashed w); [reflexivity|].
-  destruct x as [k|k f|k f|k s|k inv e|k dim nk|k p|k i|k i|i k|k fails|k|k]; try discriminate M;
+  destruct x as [k|k f|k f|k s|k inv e|k dim nk|k p|k i|k i|i k|k fails|k|k|k key]; try discriminate M;
     cbv beta iota zeta; cbn [target] in *.
   - destruct (get_obj w k); cbn [fst]; [reflexivity|apply get_set_obj_other; exact N].
   - destruct (get_obj w k); [reflexivity|]. destruct (step_read c F (wm w) empty_obj f) as [[o' m'] [why|]]; cbn [fst]; apply get_set_obj_other; exact N.
@@ -153,6 +153,9 @@ Proof.
     destruct (Nat.eqb (ndim o) 0); reflexivity.
   - destruct (get_obj w k) as [o|]; [|reflexivity]. destruct (negb (safe c o None _)); [reflexivity|].
     cbn [fst]. apply get_set_obj_other; exact N.
+  - (* remove_key: not reachable through the C interface, which has no wrapper for it *)
+    destruct (get_obj w k) as [o|]; [|reflexivity]. destruct (negb (safe c o None _)); [reflexivity|].
+    destruct (finish_some o (step_remove_key c F (wm w) o key)) as [o' [out [m' [Ef _]]]]. rewrite Ef. cbn [fst]. apply get_set_obj_other; exact N.
 Qed.
 
 Lemma step_has_other : forall c F w x j, is_move x = false -> j <> target x -> has (fst (step c F w x)) j = has w j.
@@ -1074,8 +1077,35 @@ Proof.
   intros x Hin. destruct (twins_safe kl cs call F x C W Hin) as [S [U _]]. split; assumption.
 Qed.
 
-(* the working tree: glue table and cfg as transcribed from the sources (tree_cfg is convertible to cfg_fixed exactly
-   when the tree contains every C20 fix: Properties_C20.C20_tree_is_fixed) *)
+(* The C interface has no wrapper for remove_key: no C call reaches ObjModel.step_remove_key, the only place where the
+   configuration bit fx_rmkey (proposed fix C20_10) is consulted.  Hence every statement about C call sequences holds
+   whatever that bit is: the run is the same function of the other eight bits. *)
+Definition with_rmkey (c : cfg) (b : bool) : cfg :=
+  {| fx_aux := fx_aux c; fx_clear := fx_clear c; fx_conv := fx_conv c; fx_fit := fx_fit c; fx_eq := fx_eq c; fx_perm := fx_perm c;
+     fx_moveasg := fx_moveasg c; fx_auxsize := fx_auxsize c; fx_rmkey := b |}.
+
+Lemma body_rmkey : forall g c b F GF cs call, body g (with_rmkey c b) F GF cs call = body g c F GF cs call.
+Proof. intros g c b F GF cs call. unfold body. destruct (c_args call); reflexivity. Qed.
+
+Lemma c_call_rmkey : forall gt c b F GF cs call, c_call gt (with_rmkey c b) F GF cs call = c_call gt c F GF cs call.
+Proof. intros. unfold c_call. rewrite body_rmkey. reflexivity. Qed.
+
+Lemma c_run_rmkey : forall gt c b F GF calls cs, c_run gt (with_rmkey c b) F GF cs calls = c_run gt c F GF cs calls.
+Proof.
+  intros gt c b F GF calls; induction calls as [|x t IH]; intros cs; [reflexivity|].
+  cbn [c_run]. rewrite c_call_rmkey. destruct (c_call gt c F GF cs x) as [cs' r]. rewrite IH. reflexivity.
+Qed.
+
+Lemma valid_sequence_rmkey : forall gt c b F GF calls cs,
+  valid_sequence gt (with_rmkey c b) F GF cs calls = valid_sequence gt c F GF cs calls.
+Proof.
+  intros gt c b F GF calls; induction calls as [|x t IH]; intros cs; [reflexivity|].
+  cbn [valid_sequence]. rewrite c_call_rmkey, IH. reflexivity.
+Qed.
+
+(* the working tree: glue table and cfg as transcribed from the sources (the first eight bits of tree_cfg are those of
+   cfg_fixed exactly when the tree contains every C20 fix the C interface can reach; the ninth, remove_key's, is irrelevant
+   to it — Properties_C20.C20_tree_is_fixed demands all nine) *)
 Theorem balanced_tree : forall kl F GF calls,
   valid_sequence wrappers tree_cfg F GF cstate0 calls = true ->
   Forall (wf_call kl) calls ->
@@ -1086,7 +1116,9 @@ Theorem balanced_tree : forall kl F GF calls,
   /\ lost (gm (fst (c_run wrappers tree_cfg F GF cstate0 calls))) = [] /\ lost (wm (cw (fst (c_run wrappers tree_cfg F GF cstate0 calls)))) = []
   /\ crashed (cw (fst (c_run wrappers tree_cfg F GF cstate0 calls))) = false.
 Proof.
-  intros kl F GF calls. change tree_cfg with cfg_fixed. intros V W R.
+  intros kl F GF calls.
+  assert (E : tree_cfg = with_rmkey cfg_fixed (fx_rmkey tree_cfg)) by reflexivity. rewrite E. clear E.
+  rewrite !c_run_rmkey, valid_sequence_rmkey. intros V W R.
   pose proof (balanced_whole kl wrappers F GF calls tree_glue_ok V W R) as H. cbv zeta in H.
   destruct H as [A [B [_ [_ [E1 [E2 [L1 [L2 [_ [C _]]]]]]]]]].
   split; [intros t T; exact (interleaved_balanced _ _ _ A B T)|]. repeat (split; [assumption|]). exact C.
